@@ -89,7 +89,7 @@ def run(v, tier):
     try:
         p = os.path.join(d, "t.ndjson")
         open(p, "w").write(vf.ndjson(obs))
-        viols, events, _ = vf.monitor_trace("SchemaApplyMonitor", "SchemaApplyMonitor.cfg", p)
+        viols, events, _ = vf.monitor_trace("SchemaApplyMonitor", "SchemaApplyMonitor.cfg", p, independent=True)
     finally:
         vf.rm(d)
     per = {}
